@@ -143,6 +143,10 @@ func CmpCut(decide func(n *core.Node, op token.Token, x, y ssa.Value) int) EdgeC
 		}
 		d := decide(n, b.Op, b.X, b.Y)
 		if d == 0 {
+			// the same comparison written with its operands exchanged (0 < x for x > 0)
+			d = decide(n, mirrorCmp(b.Op), b.Y, b.X)
+		}
+		if d == 0 {
 			return false
 		}
 		if neg {
@@ -413,6 +417,15 @@ func (p *PkgInfo) CheckFields(rule string, specs []FieldSpec) {
 					}
 					pv := prov.Of(args[0])
 					loc := re.FindStringIndex(pv)
+					if loc == nil {
+						// the same expression with commutative operands exchanged
+						for _, v := range core.ProvVariants(pv) {
+							if l2 := re.FindStringIndex(v); l2 != nil {
+								pv, loc = v, l2
+								break
+							}
+						}
+					}
 					ok2 := loc != nil
 					st.Ob(ok2)
 					if !ok2 {
@@ -505,4 +518,31 @@ func boolCutAny(match func(n *core.Node, v ssa.Value) bool) EdgeCut {
 		v, _ := stripNot(ifi.Cond)
 		return match(n, v)
 	}
+}
+
+// mirrorCmp: the operator of the same comparison with its operands exchanged.
+func mirrorCmp(op token.Token) token.Token {
+	switch op {
+	case token.LSS:
+		return token.GTR
+	case token.GTR:
+		return token.LSS
+	case token.LEQ:
+		return token.GEQ
+	case token.GEQ:
+		return token.LEQ
+	}
+	return op
+}
+
+// cmpConstRight returns a comparison with a constant operand on the right: `0 < x` is
+// delivered as (>, x, 0). Rules that read a comparison against a constant use it so
+// that the operand order chosen by the author does not matter.
+func cmpConstRight(bo *ssa.BinOp) (token.Token, ssa.Value, ssa.Value) {
+	if _, xc := bo.X.(*ssa.Const); xc {
+		if _, yc := bo.Y.(*ssa.Const); !yc {
+			return mirrorCmp(bo.Op), bo.Y, bo.X
+		}
+	}
+	return bo.Op, bo.X, bo.Y
 }
